@@ -568,6 +568,8 @@ func main() {
 		out, facts := runLeadHWM(v, donors[v.donorKey()])
 		report(rep, "lead-hwm", nil, v, out, "lead-stale-hwm")
 		rep.Extra["lead_stale_hwm_"+be] = facts
+		out = runRestoreWithOpenTx(v, donors[v.donorKey()])
+		report(rep, "restore-open-tx", nil, v, out, "restore-with-open-transaction")
 		out, facts = runLeadPosZero(v, donors[v.donorKey()])
 		report(rep, "lead-poszero", nil, v, out, "lead-pos-zero")
 		rep.Extra["lead_pos_zero_"+be] = facts
